@@ -315,7 +315,7 @@ pub fn step_cc<N: Nd>(nd: &mut N, mask: u16, ch: u8) {
     }
     check!(out.is_some() == e.is_some(), "C11 C15 [conformance] reports exactly when controller 6/96/97 arrives with a complete number");
     check!(same(&out, e), "C11 C15 [conformance] reported message carries channel, number, registered flag, value and resolution prescribed");
-    check!(s == gen(&a), "C11 C15 C16 [conformance] post-state is the state of the advanced observer (only the addressed channel changes)");
+    check!(s == gen(&a), "C11 C15 C16 C10 C17 [conformance] post-state is the state of the advanced observer (only the addressed channel changes)");
     witness!(nd, out.map_or(false, |m| m.is_14_bit()), "14-bit report");
     witness!(nd, out.map_or(false, |m| !m.is_14_bit() && m.data_type() == DataType::DataEntry), "7-bit report");
     witness!(nd, out.map_or(false, |m| m.data_type() == DataType::DataDecrement), "decrement report");
